@@ -199,9 +199,15 @@ fn plan10(seed: u64, run: u64, tier: Tier) -> Plan10 {
         // literals containing exactly the text of the reference comment
         let inner = ref_text.trim().trim_start_matches("//").trim_start_matches("/*").trim_end_matches("*/").to_string();
         if !inner.contains('"') && !inner.contains('`') && inner.len() < 300 {
+            // a regular expression literal too, when the text needs no escaping inside one
+            let re = if !inner.contains('/') && !inner.contains('+') && !inner.contains('(') && !inner.contains('[') && !inner.contains('*') && !inner.contains('?') {
+                format!("const lookalike3 = /{}/;\n", inner)
+            } else {
+                String::new()
+            };
             program = format!(
-                "const lookalike1 = \"//{}\";\nfunction lookalike2(a) {{ return a + `{}` + a; }}\n{}",
-                inner, inner, program
+                "const lookalike1 = \"//{}\";\nfunction lookalike2(a) {{ return a + `{}` + a; }}\n{}{}",
+                inner, inner, re, program
             );
             tags.push("lookalike-literal".into());
         }
@@ -298,13 +304,11 @@ fn normalise_code(code: &str) -> String {
     s.chars().filter(|c| !c.is_whitespace()).collect()
 }
 
+/// occurrences of a reference-comment opener anywhere in the code (the printer may put a trailing
+/// comment on the same line as the token it follows); compared against the same program without the
+/// reference, so look-alike literals cancel out
 fn count_ref_comments(code: &str) -> usize {
-    code.split('\n')
-        .filter(|l| {
-            let t = l.trim_start();
-            t.starts_with("//# sourceMappingURL=") || t.starts_with("/*# sourceMappingURL=")
-        })
-        .count()
+    code.matches("//# sourceMappingURL=").count() + code.matches("/*# sourceMappingURL=").count()
 }
 
 fn value_eq_json(a: &str, b: &str) -> bool {
@@ -497,7 +501,8 @@ impl Engine for C10 {
                     if tval.get("version").and_then(|v| v.as_u64()) != Some(3) {
                         viol.push(Violation::new("K1", "K1:trailer-not-v3", format!("[{tag}] trailer map is not version 3")));
                     }
-                    let n_ref = count_ref_comments(code);
+                    let n_base = base_code.as_deref().map(count_ref_comments).unwrap_or(0);
+                    let n_ref = count_ref_comments(code).saturating_sub(n_base);
                     if n_ref != 0 {
                         viol.push(Violation::new("K1", "K1:superseded-comment-kept", format!("[{tag}] {} sourceMappingURL comment(s) remain in the code besides the trailer", n_ref)));
                     }
